@@ -187,7 +187,8 @@ def write_p8(regions, code, version=33, label=None, final_newline=True, order=No
     out = [P8_HEADER, b'version %d\n' % version]
     for name in trim:
         rows = parts[name]
-        while len(rows) > 1 and rows[-1] == TRIM_DEFAULT_ROW[name]:
+        # (the first sfx pattern is never dropped: what an absent pattern 0 means is not something the format description settles)
+        while len(rows) > (2 if name == 'sfx' else 1) and rows[-1] == TRIM_DEFAULT_ROW[name]:
             rows.pop()
     for name in (order or ('lua', 'gfx', 'label', 'gff', 'map', 'sfx', 'music')):
         if name in parts and name not in omit:
